@@ -70,3 +70,36 @@ Theorem C17_respond_returns_first_queued : forall c s proceed data er ed during,
   srv_respond c s proceed data er ed during = (set_queue s3 q, o2 ++ o3, RetData d).
 Proof. exact respond_write_returns. Qed.
 Print Assumptions C17_respond_returns_first_queued.
+
+(* ---------------------------------------------------------------- requesting side (theories/Dm14Cli.v: Dm14Query, tied to
+   /repo by operation-sequence correspondence) *)
+From J1939 Require Import Dm14Cli.
+From J1939P Require Import Dm14CliProofs.
+
+(* T17.6 (read, client): the DM16 the server sends becomes the result — EXACTLY the bytes the frame carries ... *)
+Theorem C17_client_dm16_becomes_result : forall s dest d0 rest,
+  q_dest s = Some dest -> 0 <= d0 ->
+  cparse_dm16 s PGN_DM16 dest (d0 :: rest) =
+  cok (cset_state (csub (cunsub (cset_mem s (Some (Dm14Model.dm16_extract (d0 :: rest)))) CB16) CB15) Q_WAIT_FOR_OPER).
+Proof. exact dm16_becomes_result. Qed.
+Print Assumptions C17_client_dm16_becomes_result.
+(* ... the closing DM15 hands it to the waiting call and sends the closing DM14 ... *)
+Theorem C17_client_opcomplete_hands_over : forall haskey keyf s dest direct,
+  q_dest s = Some dest -> q_state s = Q_WAIT_FOR_OPER -> 0 <= direct < 2 -> q_objcnt s <> 0 ->
+  exists s', cparse_dm15 haskey keyf s PGN_DM15 dest [0; direct * 16 + 4 * 2 + 1; 255; 255; 255; 255; 255; 255] =
+             (s', [CSend 217 (Z.land dest 255) 6 (dm14_frame 1 (q_direct s) 4 (q_addr s) 65535)], None) /\
+             q_dq s' = q_dq s ++ [q_mem s] /\ q_state s' = Q_IDLE /\ q_xq s' = q_xq s.
+Proof. exact opcomplete_hands_over. Qed.
+Print Assumptions C17_client_opcomplete_hands_over.
+(* ... and read() returns it: raw, or the integers the bytes encode at the requested object size and signedness
+   (C17_values_roundtrip / C17_signed_is_twos_complement say which), and the query is idle again *)
+Theorem C17_client_read_returns_queue_head : forall haskey keyf s dest direct addr objcnt size signed raw during s4 o4 b bs rest,
+  0 < objcnt ->
+  (let s1 := csub (cupd s (q_state s) (Some dest) direct addr objcnt size signed raw 1 (q_bytes s) (q_mem s) (q_dq s) (q_xq s) (q_subs s)) CB15 in
+   cwait haskey keyf (cset_state s1 Q_WAIT_FOR_SEED) during = (s4, o4)) ->
+  q_dq s4 = Some (b :: bs) :: rest -> q_xq s4 = [] ->
+  snd (cli_read haskey keyf s dest direct addr objcnt size signed raw during) =
+    CRValues (if raw then b :: bs else Dm14Model.bytes_to_values (Z.to_nat size) signed (b :: bs)) /\
+  q_state (fst (fst (cli_read haskey keyf s dest direct addr objcnt size signed raw during))) = Q_IDLE.
+Proof. exact read_returns_queue_head. Qed.
+Print Assumptions C17_client_read_returns_queue_head.
